@@ -621,12 +621,12 @@ def load_corpus():
 def correspondence(run):
     corpus = load_corpus()
     terms, meta = [], []
-    c_limit(run, run.n(400, 3000), terms, meta)
+    c_limit(run, run.n(400, 6000), terms, meta)
     c_sized(run, 0, terms, meta)
-    c_final(run, run.n(900, 8000), terms, meta, corpus)
-    c_quota(run, run.n(400, 4000), terms, meta)
-    c_mul(run, run.n(800, 8000), terms, meta, corpus)
-    c_call(run, run.n(400, 4000), terms, meta)
+    c_final(run, run.n(900, 16000), terms, meta, corpus)
+    c_quota(run, run.n(400, 8000), terms, meta)
+    c_mul(run, run.n(800, 16000), terms, meta, corpus)
+    c_call(run, run.n(400, 8000), terms, meta)
     # the property's predicate on every case, whatever the model says
     flagged = set()
     for i, (kind, inp, obs, pred) in enumerate(meta):
@@ -976,7 +976,7 @@ def o_quota(run, deep):
                 add("$a * $b", 1000, {"a": ["str", n, cp], "b": ["count", c]}, consts[kd][0] + consts[kd][1] * n * c)
         add("[1, 2] * %d" % c, 1000, {}, 40 + 16 * c, raw=False)
         add("'ab' * %d" % c, 1000, {}, 41 + 2 * c, raw=False)
-    nchain = 40 if run.quick and not deep else 300
+    nchain = 48 if run.quick and not deep else 600
     forms = [
         ("range(%(k)d).aggregate($1 + $s, '')", {"s": ["str", 7, 97]}),
         ("range(%(k)d).accumulate($1 + $s, '').last()", {"s": ["str", 7, 97]}),
@@ -1038,7 +1038,7 @@ def o_quota(run, deep):
 
 # ---- (a) direct predicates on larger inputs --------------------------------
 def o_direct(run, deep):
-    n = run.n(300, 4000) * (3 if deep else 1)
+    n = run.n(300, 10000) * (3 if deep else 1)
     for i in range(n):
         N = run.rng.randrange(0, 25)
         if i % 2:
